@@ -336,6 +336,117 @@ def recover_params(tree: ast.Module, modname: str, table: Dict[str, Dict[str, Li
     return log
 
 
+# -- private attribute names ---------------------------------------------------------------------------------------
+def _classes(tree: ast.Module, modname: str) -> Iterator[Tuple[str, ast.ClassDef]]:
+    def rec(node: ast.AST, prefix: str) -> Iterator[Tuple[str, ast.ClassDef]]:
+        for c in ast.iter_child_nodes(node):
+            if isinstance(c, ast.ClassDef):
+                yield f"{prefix}.{c.name}", c
+                yield from rec(c, f"{prefix}.{c.name}")
+            elif isinstance(c, (ast.If, ast.Try)):
+                yield from rec(c, prefix)
+    yield from rec(tree, modname)
+
+
+class _BlankAttrs(ast.NodeTransformer):
+    def visit_Attribute(self, node: ast.Attribute) -> ast.AST:
+        self.generic_visit(node)
+        if node.attr.startswith("_") and not node.attr.startswith("__") and isinstance(node.value, ast.Name) and node.value.id == "self":
+            return ast.Attribute(node.value, "_", node.ctx)
+        return node
+
+
+def class_attrs(cls: ast.ClassDef) -> List[Tuple[str, str]]:
+    """(private attribute, shape of its first `self.x = ...`) for the attributes a class stores on self; __init__ first, then by
+    method name, so that reordering methods does not change the order."""
+    import copy
+    out: List[Tuple[str, str]] = []
+    seen: Set[str] = set()
+    methods = [m for m in cls.body if isinstance(m, FuncT)]
+    methods.sort(key=lambda m: (m.name != "__init__", m.name))
+    for m in methods:
+        for n in _preorder(m):
+            tgts: List[ast.AST] = []
+            val: Optional[ast.AST] = None
+            if isinstance(n, ast.Assign):
+                tgts, val = n.targets, n.value
+            elif isinstance(n, (ast.AnnAssign, ast.AugAssign)):
+                tgts, val = [n.target], n.value
+            for t in tgts:
+                if (isinstance(t, ast.Attribute) and isinstance(t.value, ast.Name) and t.value.id == "self" and t.attr.startswith("_")
+                        and not t.attr.startswith("__") and t.attr not in seen):
+                    seen.add(t.attr)
+                    txt = "" if val is None else ast.unparse(_BlankAttrs().visit(copy.deepcopy(val)))
+                    out.append((t.attr, f"{m.name}:{type(n).__name__}:{txt}"))
+    return out
+
+
+def build_attrs(trees: List[Tuple[str, ast.Module]]) -> Dict[str, object]:
+    classes: Dict[str, List[List[str]]] = {}
+    tokens: Set[str] = set()
+    for modname, tree in trees:
+        for n in _preorder(tree):
+            if isinstance(n, ast.Attribute):
+                tokens.add(n.attr)
+            elif isinstance(n, FuncT + (ast.ClassDef,)):
+                tokens.add(n.name)
+        for q, c in _classes(tree, modname):
+            a = class_attrs(c)
+            if a and q not in classes:
+                classes[q] = [list(x) for x in a]
+    return {"classes": classes, "tokens": sorted(tokens)}
+
+
+def recover_attrs(trees: List[Tuple[str, ast.Module]], table: Dict[str, object]) -> List[str]:
+    """A private attribute the pinned package never mentions, stored by a pinned class that lost a pinned private attribute, is renamed
+    back to the pinned name everywhere in the package (a consistent renaming of one attribute token to a token that occurs nowhere:
+    behaviour-preserving short of string-based attribute access, which the package does not use for private names)."""
+    pinned_classes: Dict[str, List[List[str]]] = table.get("classes", {})  # type: ignore
+    pinned_tokens = set(table.get("tokens", []))  # type: ignore
+    cur_tokens: Set[str] = set()
+    for _, tree in trees:
+        for n in _preorder(tree):
+            if isinstance(n, ast.Attribute):
+                cur_tokens.add(n.attr)
+            elif isinstance(n, FuncT + (ast.ClassDef,)):
+                cur_tokens.add(n.name)
+    proposals: Dict[str, Set[str]] = {}
+    for modname, tree in trees:
+        for q, c in _classes(tree, modname):
+            if q not in pinned_classes:
+                continue
+            base = [tuple(x) for x in pinned_classes[q]]
+            cur = class_attrs(c)
+            base_names, cur_names = {n for n, _ in base}, {n for n, _ in cur}
+            missing = [(n, s) for n, s in base if n not in cur_names and n not in cur_tokens]
+            extra = [(n, s) for n, s in cur if n not in base_names and n not in pinned_tokens]
+            if not missing or not extra:
+                continue
+            pairs: List[Tuple[str, str]] = []
+            for s in dict.fromkeys(s for _, s in missing):
+                ms = [n for n, t in missing if t == s]
+                es = [n for n, t in extra if t == s]
+                if len(ms) == len(es):
+                    pairs += list(zip(es, ms))
+            rest_m = [n for n, _ in missing if n not in {m for _, m in pairs}]
+            rest_e = [n for n, _ in extra if n not in {e for e, _ in pairs}]
+            if rest_m and len(rest_m) == len(rest_e):
+                pairs += list(zip(rest_e, rest_m))
+            for e, m in pairs:
+                proposals.setdefault(e, set()).add(m)
+    mapping = {e: next(iter(ms)) for e, ms in proposals.items() if len(ms) == 1}
+    if len(set(mapping.values())) < len(mapping):
+        return []
+    log: List[str] = []
+    if mapping:
+        for _, tree in trees:
+            for n in _preorder(tree):
+                if isinstance(n, ast.Attribute) and n.attr in mapping:
+                    n.attr = mapping[n.attr]
+        log = [f"attribute .{e} -> .{m} (whole package)" for e, m in sorted(mapping.items())]
+    return log
+
+
 def load_shapes() -> Optional[Dict[str, Dict[str, List[str]]]]:
     if not os.path.exists(SHAPES):
         return None
@@ -390,6 +501,7 @@ if __name__ == "__main__":
     sh = build_shapes(trees)
     for q, lst in build_augassign(root).items():
         sh[q]["augassign"] = lst
+    sh["@attrs"] = build_attrs(trees)  # type: ignore
     with open(SHAPES, "w") as f:
         json.dump(sh, f, indent=0, sort_keys=True)
     print(len(sh), "functions with comparisons / if-else")
